@@ -330,6 +330,8 @@ func runRows() []runRow {
 		{"command fails, allowed", "exec(command)", 1, 1},
 		{"command interrupted", "exec(command)", 0, -1},
 		{"after command fails", "exec(after)", -1, -1},
+		// finishing the output is presentation: its failure is logged and changes nothing else
+		{"output finish fails", "output.finish", -1, -1},
 	}
 }
 
@@ -429,7 +431,7 @@ func checkRunTable(c *an.Ctx, rule string, want map[string]bool) {
 				note("phase order violated: %s (events %v)", m, ev)
 			}
 			// what may follow the failing event
-			stops := row.fail != "" && reachedFail && row.name != "command fails, allowed" && row.name != "after command fails"
+			stops := row.fail != "" && reachedFail && row.name != "command fails, allowed" && row.name != "after command fails" && row.name != "output finish fails"
 			if want["stop-on-failure"] && stops {
 				after := false
 				for _, e := range ev {
@@ -528,7 +530,7 @@ func checkRunTable(c *an.Ctx, rule string, want map[string]bool) {
 				}
 			}
 			if want["store"] {
-				failed := row.fail != "" && reachedFail && row.name != "command fails, allowed" && row.name != "after command fails"
+				failed := row.fail != "" && reachedFail && row.name != "command fails, allowed" && row.name != "after command fails" && row.name != "output finish fails"
 				if failed && has(ev, "store") {
 					note("the task's output is stored although %s failed", row.fail)
 				}
